@@ -195,9 +195,9 @@ PROPS = {
         trusted_base=["pkg/packet/writer.go, reader.go transcribed by hand into theories/Packet/Writer.v, the pump goroutine into theories/Packet/Teardown.v", COMMON_MODEL],
     ),
     "C04": dict(
-        level_text="Coq theorems for every history/interleaving (granularity: the status flip is atomic, threads are held at user-hook entries; any number of threads and processes): termination is permanent and the exit error is the first Exit's; the flip takes all hooks (a terminated process holds none in any reachable state, a second Exit takes nothing), clears the values and hooks run as the reversed registration list; and the log-level clause C04_exactly_once, by a conservation argument (every hook an AddExitHook call brought in is registered, or waits in a frame of a thread running exit hooks, or is in the log - exactly one of the three): no hook is ever entered twice, a hook is entered only after its process terminated and with that process's exit error, and once no thread has anything left to run a hook has been entered exactly once if its process terminated and not at all (still registered, once) otherwise. Tied to pkg/process by driving real processes from 2-3 worker goroutines with parking hooks so that Fork/AddExitHook/Exit of other threads land between the flip and any hook; hook log, Status/Err/Done/keys after every step and Join at the end are compared with the model; on complete states a Go oracle evaluates the property directly (each hook exactly once with the process's error, reverse order, cascade to descendants, Join iff children terminated).",
-        level_note="Trusted: Coq kernel + vm_compute; hand transcription of process.go (a parked hook is the head HParked of its thread's top frame); C04_exactly_once assumes distinct hook objects and existing thread/process numbers; cascade to descendants and Join are checked on generated histories (model and implementation), not proved in Coq; WaitGroup and channels are Go runtime.",
-        technique="Coq invariant proofs (sticky termination, hooks taken once, token conservation + ownership invariant => exactly once with the right error) + vm_compute correspondence under forced interleavings + direct property oracle",
+        level_text="Coq theorems for every history/interleaving (granularity: the status flip is atomic, threads are held at user-hook entries; any number of threads and processes): termination is permanent and the exit error is the first Exit's; the flip takes all hooks (a terminated process holds none in any reachable state, a second Exit takes nothing), clears the values and hooks run as the reversed registration list; and the log-level clause C04_exactly_once, by a conservation argument (every hook an AddExitHook call brought in is registered, or waits in a frame of a thread running exit hooks, or is in the log - exactly one of the three): no hook is ever entered twice, a hook is entered only after its process terminated and with that process's exit error, and once no thread has anything left to run a hook has been entered exactly once if its process terminated and not at all (still registered, once) otherwise; C04_cascade: on such complete states every process forked from a terminated process is terminated; C04_join: the WaitGroup counter of a process is zero (Join returns) exactly when all its children have terminated. Tied to pkg/process by driving real processes from 2-3 worker goroutines with parking hooks so that Fork/AddExitHook/Exit of other threads land between the flip and any hook; hook log, Status/Err/Done/keys after every step and Join at the end are compared with the model; on complete states a Go oracle evaluates the property directly (each hook exactly once with the process's error, reverse order, cascade to descendants, Join iff children terminated).",
+        level_note="Trusted: Coq kernel + vm_compute; hand transcription of process.go (a parked hook is the head HParked of its thread's top frame); C04_exactly_once assumes distinct hook objects; all three log-level theorems assume existing thread/process numbers (ok_from); the WaitGroup is its counter, channels are Go runtime.",
+        technique="Coq invariant proofs (sticky termination, hooks taken once, token conservation + ownership invariant => exactly once with the right error; reachability invariant => cascade; WaitDone-token conservation => Join) + vm_compute correspondence under forced interleavings + direct property oracle",
         quick_n=250, thorough_n=6000, shard=25, mismatch_is_failure=True,
         assumptions=["hooks supplied by the user return when released (they are functions of the harness)", "Join is probed after the last Fork (documented usage)", "hooks are distinct objects (AddExitHook refuses one that is already registered)"],
         trusted_base=["pkg/process/process.go, exithook.go transcribed by hand into theories/Process/Process.v", COMMON_MODEL],
